@@ -13,19 +13,19 @@ CHECKS = {
     text="Seeded histories with Close/Open cycles at arbitrary positions (non-empty flush queue, right after a rotation, empty memtable, Config re-drawn) are executed on the real engine; TLC judges each recorded history against the contract, in which Open must expose exactly the committed state and later commits must supersede it.",
     note="sampling of histories and configurations; L0TargetNum/LevelRatio fixed per directory as the property says"),
  "C03": dict(tech="TLC model checking of Crash.tla (crash at every file-system step, recovery as steps) + crash-image enumeration on the real code judged by TLC trace validation against AbsTxn.tla (Crash/Open actions)",
-    text="Crash.tla makes every file-system operation of committer, flusher, compaction, Close and recovery its own action with Crash enabled in every state; TLC checks Durable/OpenOk/Fresh. On the real code every file-system failpoint hit by steered workloads yields a crash image (directory copied while the engine is held before the operation); each distinct image is recovered in a fresh child process and the stitched history (workload prefix, Crash, Open, reads, commit, close, reopen, reads) is judged by TLC against the contract.",
+    text="Crash.tla makes every file-system operation of committer, flusher, compaction, Close and recovery its own action with Crash enabled in every state; TLC checks Durable/OpenOk/Fresh. On the real code every file-system failpoint hit by steered workloads yields a crash image (directory copied while the engine is held before the operation); each distinct image is recovered in a fresh child process and the stitched history (workload prefix, Crash, Open, reads, commit, close, reopen, reads) is judged by TLC against the contract. The file-system + hook stream of every uncrashed run is additionally replayed on Crash.tla by TraceCrash.tla (implementation level: a rejection is reported as drift, not as a violation).",
     note="process-crash model of the property; workloads/schedules are seeded samples, failpoints within a run are enumerated completely; second-level (crash during recovery) images in the thorough tier"),
  "C04": dict(tech="TLC trace validation of crash-image histories against AbsTxn.tla with AtomicInflight=TRUE vs FALSE + TLC invariant Atomic on Crash.tla",
     text="The same image enumeration on multi-key transactions; a recovered history is a C04 violation when the whole-or-nothing contract rejects it while the per-key contract accepts it, i.e. exactly when a transaction is visible partially.",
     note="quantifier is crash points (not lost unsynced tails), as in the property"),
  "C14": dict(tech="TLC model checking of Crash.tla with TornTails + torn-tail variants of every crash image judged by TLC trace validation",
-    text="Per file the harness tracks written vs synced length from the fs hooks; every crash image is additionally recovered with each unsynced tail cut back (synced, synced+1, middle, written-1; thorough: every byte of short tails). Open must succeed and every acknowledged commit must be visible (contract with per-key in-flight semantics).",
+    text="Per file the harness tracks written vs synced length from the fs hooks; every crash image is additionally recovered with each unsynced tail cut back (synced, synced+1, middle, written-1; thorough: every byte of short tails). Open must succeed and every acknowledged commit must be visible (contract with per-key in-flight semantics). In addition the fsync discipline is validated on strace-recorded system calls (TraceFs.tla), and real wal files cut at EVERY byte offset are read back with WAL.Read and judged by TraceWal.tla (WalLog.tla models the read loop).",
     note="directory operations assumed ordered and durable (as the property says); truncation is the only in-file fault"),
  "C05": dict(tech="TLC model checking of Txn.tla (refinement of AbsTxn) + hint-free TLC trace validation of concurrent and steered long-reader executions",
-    text="Txn.tla (oracle, watermarks, commit pipeline, one action per critical section) is model-checked to refine the contract (SnapshotReads, GcSafe, CommitMarkSound in every state), with deviation switches as self-test. Real executions: concurrent goroutines with seeded delays at hook points, and steered scripts holding up to three long-lived readers open across every flusher stage and compaction; TLC searches all placements of the unobservable linearization points; only rejections at a Get/Begin are attributed to C05.",
+    text="Txn.tla (oracle, watermarks, commit pipeline, one action per critical section) is model-checked to refine the contract (SnapshotReads, GcSafe, CommitMarkSound in every state), with deviation switches as self-test. Real executions: concurrent goroutines with seeded delays at hook points, and steered scripts holding up to three long-lived readers open across every flusher stage and compaction; TLC searches all placements of the unobservable linearization points; only rejections at a Get/Begin are attributed to C05. The API + oracle/commit hook stream of every concurrent scenario is additionally replayed on Txn.tla (asynchronous watermarks) by TraceTxn.tla (implementation level: drift, not a verdict).",
     note="bounded model (<=3 clients, 2 keys); schedules of the real code are sampled (seeded), not enumerated"),
  "C06": dict(tech="TLC model checking of Txn.tla + hint-free TLC trace validation of concurrent histories (acceptance by AbsTxn = strict serializability)",
-    text="Acceptance of a recorded concurrent history by AbsTxn.tla (ExactConflict=FALSE) is strict serializability with the commit order as serial order; TLC performs the complete search over linearization points for every trace; Txn.tla is model-checked to agree with the contract on every Get and every commit decision.",
+    text="Acceptance of a recorded concurrent history by AbsTxn.tla (ExactConflict=FALSE) is strict serializability with the commit order as serial order; TLC performs the complete search over linearization points for every trace; Txn.tla is model-checked (also with asynchronous watermark consumers) to agree with the contract on every Get and every commit decision; the oracle/commit hook stream of every scenario is replayed on it by TraceTxn.tla (drift level).",
     note="<=5 client goroutines, 2-4 shared keys per scenario; schedules sampled"),
  "C07": dict(tech="TLC model checking of Txn.tla (Agrees, CleanupSafe) + TLC trace validation with the exact (iff) conflict rule",
     text="LPCommit of AbsTxn.tla refuses iff a store-read key was committed after the snapshot; both directions are checked on every recorded Commit of the real engine by trace validation with ExactConflict=TRUE, and on the design by TLC (over-abort and under-abort flags, cleanup of committedTxns).",
@@ -34,7 +34,7 @@ CHECKS = {
     text="Scripts abandon a seeded fraction of transactions at every point (Discard, failing Update closure, conflict) between commits, flusher stages and reopens and issue every misuse call; values identify the writing transaction, so any leaked write is a value the contract never committed; misuse answers are fixed by the contract.",
     note="sampling of abandon points; misuse calls issued one condition at a time"),
  "C13": dict(tech="TLC model checking of Watermark.tla (safety + liveness under fairness) + TLC trace validation of real WaterMark executions with silent channel/consumer steps",
-    text="Watermark.tla mirrors the code (bounded FIFO channel, pending map, heap, consumer Take/Store/Wake, waiters); TLC checks Monotone, NeverPasses (on the FIFO-linearised history), CatchesUp, WaitSound, WaitLive and the liveness form under weak fairness, with four deviation switches as self-test. Every call sequence up to length 3 (thorough 4) over 3 indices, random longer sequences and concurrent drivers are executed on the real WaterMark; each recorded execution (calls, returns, DoneUntil observations, quiescence) is validated by TLC against the same module.",
+    text="Watermark.tla mirrors the code (bounded FIFO channel, pending map, heap, consumer Take/Store/Wake, waiters); TLC checks Monotone, NeverPasses (on the FIFO-linearised history), CatchesUp, WaitSound, WaitLive and the liveness form under weak fairness, with four deviation switches as self-test. Every call sequence up to length 3 (thorough 4) over Begin/Done of 3 indices, WaitForMark and the end of a parked wait's context, random longer sequences and concurrent drivers are executed on the real WaterMark; each recorded execution (calls, returns, DoneUntil observations, quiescence) is validated by TLC against the same module.",
     note="bounded model (<=3 clients, 3 indices, <=6 calls); readings fixed in DESIGN.md section 6 C13 (lag, a Done finishes an earlier Begin); 'eventually' observations use the consumer's hook count, timeouts >= 3 s"),
  "C09": dict(tech="TLC model checking of Levels.tla (compaction cascade with version discard) + replay of every TLC initial scenario on a real level manager + TLC trace validation against TraceLookup.tla",
     text="Levels.tla models table structure, the per-table lookup, the best-over-tables level lookup, overlap selection, merge and discardStaleEntries; from every sequence of flushed tables x watermark x block size TLC runs the compaction cascade and checks CompactionPreserves and OnlyShadowedDisappear in every state. Each scenario is replayed on a real level manager through the verif accessor (flush, lookup, checkAndCompact, lookup, recover, lookup) and compared with the spec's answers; random larger runs are judged by TLC against the lookup contract.",
@@ -46,10 +46,10 @@ CHECKS = {
     text="Codec.tla enumerates all entry lists of a small class universe through an abstract Data.Encode/Decode with W-bit length fields (RoundTrip holds iff every length fits; the truncation is pinpointed otherwise) and Pool.tla checks that no returned result aliases a pooled buffer. The real codecs are driven with lists built from the same classes at the real boundaries (16-bit), and returned slices are re-compared after concurrent encoder/wal activity; TLC judges the recorded results against the contract (always equal).",
     note="the family fits this property least: byte strings are sampled per class; known finding D11 (lengths >= 65536 truncated) is reported as KNOWN-FINDING"),
  "C15": dict(tech="TLC model checking of Conc.tla (deadlock freedom as invariant, termination of every call under weak fairness) + watchdog stress runs judged by TLC trace validation (Close/Open)",
-    text="Conc.tla keeps only the blocking structure: oracle.writeLock, db.mu, levelManager.mu, flushC with capacity 0..2, the Close handshake and the commit mark Begin waits for; TLC shows that the only state without a successor is 'all calls returned and closed', that Close implies the flusher stopped with nothing queued, and under weak fairness that every call returns; four deviation switches (send under db.mu, lock-order inversion, missing doneCommit, exit with a non-empty queue) are found. Real stress scenarios run under a watchdog, and the recorded history including Close and the immediate reopen is judged against AbsTxn.tla.",
+    text="Conc.tla keeps only the blocking structure: oracle.writeLock, db.mu, levelManager.mu, flushC with capacity 0..2, the Close handshake and the commit mark Begin waits for; TLC shows that the only state without a successor is 'all calls returned and closed', that Close implies the flusher stopped with nothing queued, and under weak fairness that every call returns; four deviation switches (send under db.mu, lock-order inversion, missing doneCommit, exit with a non-empty queue) are found. Real stress scenarios (ending in a burst of rotating commits and a Close with flushes pending) run under a watchdog; wal files left behind by Close are counted; the recorded history including Close and the immediate reopen is judged against AbsTxn.tla.",
     note="bounded model (<=3 clients); real schedules sampled; Close concurrent with in-flight calls is outside the property"),
  "C16": dict(tech="TLC model checking of Filter.tla (no false negative for arbitrary hash functions) + TLC trace validation of real filter.Build/Contains and recovery-rebuilt filters against TraceFilter.tla",
-    text="Filter.tla proves, for every assignment of hash functions of a small instance, that an added key is never denied, and flags mismatched seeds and the versioned-vs-user key pairing. The real filter is built from generated entry sets (1..50000 entries, five key shapes, several versions per key) and queried for every member, directly and through a table file whose handle is rebuilt by recovery; TLC validates the aggregate events.",
+    text="Filter.tla proves, for every assignment of hash functions of a small instance, that an added key is never denied, and flags mismatched seeds and the versioned-vs-user key pairing. The real filter is built from generated entry sets (1..50000 entries, five key shapes, several versions per key) and queried for every member, directly and through a table file whose handle is rebuilt by recovery; after flushes, compaction cascades and recoveries every filter the level manager holds is asked for every entry of its table (verif accessor FilterDenied); TLC validates the aggregate events.",
     note="essentially a pure function: the model adds the contract and the ParseKey pairing; hashing arithmetic is exercised, not modelled"),
  "C12": dict(tech="TLC trace validation of concurrent histories produced under the Go race detector (sensor for the lock discipline)",
     text="Concurrent scenarios (thresholds down to 1 byte, queue length 0..4, seeded delays at hook points) run in a harness built with -race; a race report or panic is a violation, and every recorded history must be accepted by AbsTxn.tla.",
